@@ -3,7 +3,8 @@ import Slu.Scalar
 import Slu.Model.IluDrop
 -- HANDLER iludrop => Slu.Drv.IluDrop.handle
 /-
-Driver for family `iludrop` (C15): direct calls of `[sd]qselect` and `ilu_[sd]drop_row`.
+Driver for family `iludrop` (C15): direct calls of `[sd]qselect` and `ilu_[sdcz]drop_row` (the exact-rational MILU
+clause is evaluated for the real files only).
 
 qselect.  Prop (finite inputs): the array afterwards is a permutation of the array before (bit patterns), the
 value returned is the element of rank `clamp k` of the descending order (exact rationals), it sits at position
